@@ -148,6 +148,12 @@ type Sim struct {
 	deadline  time.Time
 	// OnStep, if set, runs after each released step (state-level faults, monitors).
 	OnStep func(s *Sim, st Step)
+	// OnPark runs when a process parks at an event; BeforeRelease right before a
+	// parked process is released (not for kills). Together they let a check
+	// expose an intermediate state of an uninstrumented writer to the other
+	// processes (e.g. a half-copied output while its producer has not returned).
+	OnPark        func(s *Sim, p *Proc, ev *Msg)
+	BeforeRelease func(s *Sim, p *Proc, ev *Msg)
 }
 
 type Stats struct {
@@ -469,6 +475,9 @@ func (s *Sim) handle(im inMsg) {
 				p.state = stParked
 			}
 			s.logf(p, *m)
+			if s.OnPark != nil {
+				s.OnPark(s, p, m)
+			}
 		case "note":
 			if m.Op == "funlock" || m.Op == "exit" {
 				s.lockDirty = true
@@ -706,6 +715,9 @@ func (s *Sim) apply(enabled []*Proc, idx int, act Action) error {
 	}
 	if ev.Op == "funlock" {
 		s.lockDirty = true
+	}
+	if s.BeforeRelease != nil {
+		s.BeforeRelease(s, p, ev)
 	}
 	p.Pending = nil
 	switch ev.Op {
